@@ -12,6 +12,7 @@
 //	sleep ms        advance virtual time
 //	deliver k       deliver transmission k (handshake packets only) to the node owning its destination
 //	dto k m         deliver transmission k to node m instead (misdelivery / replay elsewhere)
+//	dl j / dlto j m the same, counting back from the latest transmission (j = 0)
 //	send n a port len   one inside UDP packet (IPv4/IPv6 by a) to overlay addr a, dst port, total length
 //	idx n v         the next index node n draws from crypto/rand is v
 //	del n li        connection manager deleteTunnel on local index li
@@ -86,6 +87,7 @@ type world struct {
 	idxQ    [][]uint32
 	idxCtr  []uint32
 	rnd     *hlib.Rand
+	t0      int64 // virtual time of the reset (times are printed relative to it)
 }
 
 func underlay(n int) netip.AddrPort {
@@ -215,10 +217,12 @@ func (w *world) pktName(stage uint8, b []byte) string {
 	return "u"
 }
 
+func (w *world) timeName(t uint64) string { return fmt.Sprint(int64(t) - w.t0) }
+
 func (w *world) finish(n int, res string) string {
 	node := w.nodes[n]
 	synctest.Wait()
-	return res + " " + w.txString() + " " + node.Dump(w.pktName, addrName, uName)
+	return res + " " + w.txString() + " " + node.Dump(w.pktName, addrName, uName, w.timeName)
 }
 
 type m = map[string]any
@@ -231,23 +235,32 @@ func yamlOf(v any) string {
 	return string(b)
 }
 
-func newWorld(t *testing.T, args []string) (*world, string) {
-	w := &world{full: map[string]int{}, body: map[string]int{}, cur: -1, rnd: hlib.NewRand(99)}
+func newWorld(t *testing.T, args []string) (w *world, res string) {
+	defer func() {
+		if res != "ok" && w != nil {
+			for _, n := range w.nodes {
+				n.Close()
+			}
+			w = nil
+		}
+	}()
+	w = &world{full: map[string]int{}, body: map[string]int{}, cur: -1, rnd: hlib.NewRand(99)}
 	rand.Reader = w
 	retries := hlib.Atoi(args[1])
 	interval := hlib.Atoi(args[2])
 	now := time.Now()
+	w.t0 = now.UnixNano()
 	before, after := now.Add(-time.Hour), now.Add(24*365*time.Hour)
 	ca, _, caKey, _ := cert_test.NewTestCaCert(cert.Version2, cert.Curve_CURVE25519, before, after, nil, nil, nil)
 	caPEM, err := ca.MarshalPEM()
 	if err != nil {
-		return nil, "err:ca"
+		return w, "err:ca"
 	}
 	l := slog.New(slog.DiscardHandler)
 	for i, spec := range args[3:] {
 		parts := strings.SplitN(spec, ":", 2)
 		if len(parts) != 2 {
-			return nil, "bad-op"
+			return w, "bad-op"
 		}
 		var nets []netip.Prefix
 		for _, s := range strings.Split(parts[1], ",") {
@@ -267,7 +280,7 @@ func newWorld(t *testing.T, args []string) (*world, string) {
 			_, p2 := cert_test.NewTestCertDifferentVersion(c1, cert.Version2, ca, caKey)
 			certPEM = append(append([]byte{}, p1...), p2...)
 		default:
-			return nil, "bad-op"
+			return w, "bad-op"
 		}
 		mc := m{
 			"pki": m{"ca": string(caPEM), "cert": string(certPEM), "key": string(keyPEM)},
@@ -280,13 +293,13 @@ func newWorld(t *testing.T, args []string) (*world, string) {
 		}
 		c := config.NewC(l)
 		if err := c.LoadString(yamlOf(mc)); err != nil {
-			return nil, "err:config"
+			return w, "err:config"
 		}
 		w.idxQ = append(w.idxQ, nil)
 		w.idxCtr = append(w.idxCtr, 0)
 		node, err := nebula.VerifHsmNewNode(l, c, &recConn{w: w, node: i}, &overlaytest.NoopTun{})
 		if err != nil {
-			return nil, "err:node " + err.Error()
+			return w, "err:node " + err.Error()
 		}
 		w.nodes = append(w.nodes, node)
 	}
@@ -294,6 +307,14 @@ func newWorld(t *testing.T, args []string) (*world, string) {
 }
 
 func insidePacket(src, dst netip.Addr, port, ln int) []byte {
+	if src.Is4() != dst.Is4() {
+		// the node has no address of that family: any source will do, the packet is unroutable
+		if dst.Is4() {
+			src = netip.AddrFrom4([4]byte{10, 128, 0, 250})
+		} else {
+			src = overlayAddr(250 + 100)
+		}
+	}
 	if dst.Is4() {
 		if ln < 28 {
 			ln = 28
@@ -406,14 +427,17 @@ func newExec(t *testing.T) func([]string) string {
 			w.nodes[n].LighthouseTrigger(overlayAddr(hlib.Atoi(a[2])))
 			w.nodes[n].Trigger()
 			return w.finish(n, "ok")
-		case "deliver", "dto":
+		case "deliver", "dto", "dl", "dlto":
 			k := hlib.Atoi(a[1])
+			if a[0] == "dl" || a[0] == "dlto" {
+				k = len(w.log) - 1 - k
+			}
 			if k < 0 || k >= len(w.log) {
 				return "nop"
 			}
 			r := w.log[k]
 			to := nodeOf(r.dst)
-			if a[0] == "dto" {
+			if a[0] == "dto" || a[0] == "dlto" {
 				to = hlib.Atoi(a[2])
 			}
 			if to < 0 || to >= len(w.nodes) {
